@@ -25,7 +25,7 @@ ASSUMPTIONS = [
     "statistics 28-31 are taken in their implemented reading (step of two, intersected with records), see DESIGN §3",
 ]
 REQUIRED = ["named.checked", "listing.checked", "tools.distribution", "tools.preserved", "tools.transformed.nonempty", "tools.equidistributed",
-            "calls.Perm.count_inversions", "calls.Perm.holeyness", "calls.Perm.rtlmax_ltrmin_decomposition", "calls.Perm.cycle_decomp", "aliasing.mutated_results"]
+            "calls.Perm.count_inversions", "calls.Perm.holeyness", "calls.Perm.rtlmax_ltrmin_decomposition", "calls.Perm.cycle_decomp", "aliasing.mutated_results", "shortcuts.checked"]
 MIN_NONTRIVIAL = 3000
 CTX = None
 MON = None
@@ -354,6 +354,28 @@ def chk_bijection(ctx, spec):
     ctx.nt(("bij", tuple(spec)))
 
 
+def chk_shortcuts(ctx, p):
+    """alternative entry points: the shortcut constructors and the symmetry duplication of a bijection"""
+    P, t = Perm(p), tuple(p)
+    for maker, name in ((PermutationStatistic.inv, "Number of inversions"), (PermutationStatistic.maj, "Major index"),
+                        (PermutationStatistic.des, "Number of descents"), (PermutationStatistic.asc, "Number of ascents")):
+        st = maker()
+        ctx.ev()
+        ctx.count("shortcuts.checked")
+        if st.name != name or st.func(P) != ST.NAMED[name](t) or str(st) != name:
+            report("shortcut", [p], f"PermutationStatistic shortcut for {name!r} gives {st.func(P)} (name {st.name!r}), definition gives {ST.NAMED[name](t)}")
+    bij = {P: P.inverse(), P.reverse(): P.complement()}
+    dup = list(PermutationStatistic.symmetry_duplication(bij))
+    from ..oracle import geometry as G
+    want = set()
+    for m in G.SYMS.values():
+        want.add(frozenset((G.act_perm(m, tuple(k)), G.act_perm(m, tuple(v))) for k, v in bij.items()))
+    got = {frozenset((tuple(k), tuple(v)) for k, v in d.items()) for d in dup}
+    ctx.ev()
+    if len(dup) != 8 or got != want:
+        report("shortcut", [p], f"symmetry_duplication yields {len(dup)} bijections / {len(got)} distinct, the 8 images of the bijection are {len(want)} distinct")
+
+
 def chk_equidistributed(ctx, b1, b2, n):
     c1, c2 = Av([Perm(b) for b in b1]), Av([Perm(b) for b in b2])
     l1, l2 = avmodel.levels([tuple(b) for b in b1], n), avmodel.levels([tuple(b) for b in b2], n)
@@ -381,7 +403,7 @@ def chk_equidistributed(ctx, b1, b2, n):
     ctx.nt(("equi", repr(b1), repr(b2), n))
 
 
-CHECKS = {"method": chk_method, "perm": chk_perm, "distribution": chk_distribution, "bijection": chk_bijection, "equi": chk_equidistributed}
+CHECKS = {"shortcut": chk_shortcuts, "method": chk_method, "perm": chk_perm, "distribution": chk_distribution, "bijection": chk_bijection, "equi": chk_equidistributed}
 
 
 def plan(tier, seed):
@@ -399,6 +421,8 @@ def run(ctx, spec):
         for i, p in enumerate(itertools.permutations(range(spec["n"]))):
             if i % spec["parts"] == spec["part"]:
                 chk_perm(ctx, list(p))
+                if i % 5 == 0:
+                    chk_shortcuts(ctx, list(p))
         ctx.note(f"exhaustive: all statistics on S_{spec['n']} part {spec['part']}/{spec['parts']}")
     elif spec["kind"] == "tools":
         part = spec["part"]
